@@ -15,9 +15,10 @@
       another idle round is handed to the batch function in the next event's call, a history the
       Spec rejects ([batch_leak_before_fix]).
 
-    Not modelled: a goroutine of event e that is still inside f() when event e+1 runs shares the
-    asyncResolutions channel with it; its select may hand a stale resolution to the next event's
-    idle handler (an idle round without progress for that event; the promise it fills is unread). *)
+    - the asyncResolutions channel was shared by the events as well: a goroutine of event e whose
+      function returned while event e+1's handler was blocked in its receive could hand its stale
+      resolution to that handler ([step_stale], [stale_resolution_before_fix]); api-fu now gives every
+      execution its own channel, so the repaired code has no such step ([run], not [run_stale]). *)
 From Coq Require Import List NArith ZArith Bool Arith Lia.
 From ApiFu Require Import Idle.IdleModel Idle.IdleSpec Idle.IdleProofs Idle.IdleHist.
 Import ListNotations.
@@ -113,4 +114,52 @@ Proof.
   split; [vm_compute; reflexivity|]. split; [|split; vm_compute; reflexivity].
   exists 0, [1; 0], 1. split; [simpl; auto|]. split; [simpl; auto|].
   simpl. intros [H|[]]. discriminate.
+Qed.
+
+(** ** Before the second repair: a stale resolution reaches the next event's idle handler
+
+    [LRecv w] for a [w] that names no item of this execution: the resolution of a goroutine that
+    an earlier event started.  The handler forwards the result to a promise nobody reads and goes
+    on exactly as after a delivery of its own. *)
+Definition step_stale (fx : variant) (p : prog) (s : state) (l : label) : option state :=
+  match l with
+  | LRecv w =>
+      match lookup p w with
+      | Some _ => step fx p s l
+      | None =>
+          match st_phase s with
+          | PTop => if is_nil (st_pend s) then Some (set_phase s PDrain) else None
+          | PDrain => Some s
+          | _ => None
+          end
+      end
+  | _ => step fx p s l
+  end.
+
+Fixpoint run_stale (fx : variant) (p : prog) (s : state) (tr : list label) : option state :=
+  match tr with
+  | [] => Some s
+  | l :: tr' => match step_stale fx p s l with Some s' => run_stale fx p s' tr' | None => None end
+  end.
+
+Definition stale_prog : prog :=
+  mkProg [mkItem KGo None false (ROk 7)] (fun _ l => map (fun _ => ROk 0) l) (fun _ _ => ROk 0).
+
+(** the handler returns to the executor having filled no promise of the running execution, while
+    promise 0 is still awaited: C15_idle_round_fulfils fails, the Spec rejects the history *)
+Theorem stale_resolution_before_fix :
+  exists p pre mid s,
+    wf_items p = true /\ bfun_ok p /\
+    run_stale current p init (pre ++ LIdleEnter :: mid ++ [LIdleExit]) = Some s /\ ~ In LIdleExit mid /\
+    st_phase s = PPoll /\ live p s 0 = true /\ chan_empty s 0 = true /\
+    (forall w, In w (deliveries mid) -> ~ In w (created_of (pre ++ mid))) /\
+    mon_run p mon_init (pre ++ LIdleEnter :: mid ++ [LIdleExit]) = None /\
+    run current p init (pre ++ LIdleEnter :: mid ++ [LIdleExit]) = None.
+Proof.
+  exists stale_prog, [LCreate 0], [LRecv 7]. eexists.
+  split; [reflexivity|]. split; [intros k l; simpl; apply map_length|].
+  split; [vm_compute; reflexivity|]. split; [simpl; intros [H|[]]; discriminate|].
+  split; [reflexivity|]. split; [reflexivity|]. split; [reflexivity|].
+  split; [|split; vm_compute; reflexivity].
+  intros w [<-|[]]. simpl. intros [H|[]]. discriminate.
 Qed.
